@@ -16,6 +16,7 @@ from ._transform import (
     Stack,
     Transform,
 )
+from ._transform.accumulate import _check_expects_grad
 from ._utils import _as_tensor_list, _check_optional_positive_chunk_size, _get_leaf_tensors
 
 
@@ -100,6 +101,7 @@ def mtl_backward(
 
     shared_params = list(shared_params)
     tasks_params = [list(task_params) for task_params in tasks_params]
+    _check_params_expect_grad(shared_params, tasks_params)
 
     # Task-specific transforms. Each of them computes and accumulates the gradient of the task's
     # loss w.r.t. the task's specific parameters, and computes and backpropagates the gradient of
@@ -159,6 +161,15 @@ def _make_task_transform(
     # their .grad fields and backpropagates the gradient of the losses w.r.t. to the features.
     backward_task = (backpropagate | accumulate) << grad << init
     return backward_task
+
+
+def _check_params_expect_grad(
+    shared_params: list[Tensor], tasks_params: list[list[Tensor]]
+) -> None:
+    # Check all parameters before any .grad field is modified: the task-specific gradients are
+    # accumulated one task at a time, before the shared parameters are even considered.
+    for param in [*shared_params, *(param for params in tasks_params for param in params)]:
+        _check_expects_grad(param)
 
 
 def _check_losses_are_scalar(losses: Sequence[Tensor]) -> None:
